@@ -21,6 +21,7 @@ Definition run_case (comp : N) (inp : list N) : list N :=
   | 1 => run_cluster inp
   | 101 => run_clusterlog inp
   | 102 => run_clustercommit inp
+  | 103 => run_clustersnap inp
   | 12 => run_replseq inp
   | 1201 => run_converge inp
   | 15 => run_fsprogram inp
